@@ -1,10 +1,10 @@
 INIT Init
 NEXT Next
-CONSTANTS PatChars = {65, 97, 49, 35, 42, 46, 58, 94, 91, 92, 45, 36}
- MaxPat = 3
+CONSTANTS PatChars = {65, 97, 49, 35, 42, 46, 58, 94, 91, 92, 123, 60, 36, 45, 40, 41, 43, 63, 124, 125, 93, 39, 96, 62, 126, 64}
+ MaxPat = 2
  Prefixes <- PrefixesSmall
- NameChars = {65, 97, 49, 94, 91, 92, 45, 36, 98}
- MaxName = 2
+ NameChars = {65, 97, 49, 94, 91, 92, 123, 124, 60, 36, 45, 40, 41, 43, 63, 125, 93, 39, 96, 62, 126, 64, 98}
+ MaxName = 1
  FileDirs = {36, 65, 94}
  FileDrives = {0, 1}
  CtxDrive = 0
